@@ -1,0 +1,86 @@
+//go:build verif
+// +build verif
+
+package cache
+
+import "runtime"
+
+// This file is only compiled with `-tags verif`. It adds observation and
+// shutdown hooks used by the verification harness in /verif; it changes no
+// existing code.
+
+// VerifClose stops background goroutines of the cache and disarms the finalizer.
+func (c *ShardedMap) VerifClose() {
+	runtime.SetFinalizer(c, nil)
+	close(c.t.Closed)
+}
+
+// VerifCleanup runs one janitor cycle synchronously.
+func (c *ShardedMap) VerifCleanup() { c.t.invokeCleanup() }
+
+// VerifClose stops background goroutines of the cache and disarms the finalizer.
+func (c *SyncMap) VerifClose() {
+	runtime.SetFinalizer(c, nil)
+	close(c.t.Closed)
+}
+
+// VerifCleanup runs one janitor cycle synchronously.
+func (c *SyncMap) VerifCleanup() { c.t.invokeCleanup() }
+
+// VerifClose stops background goroutines of the cache and disarms the finalizer.
+func (c *ShardedMapOf[V]) VerifClose() {
+	runtime.SetFinalizer(c, nil)
+	close(c.t.Closed)
+}
+
+// VerifCleanup runs one janitor cycle synchronously.
+func (c *ShardedMapOf[V]) VerifCleanup() { c.t.invokeCleanup() }
+
+// VerifKeyLocks returns the number of per-key build locks currently held.
+func (f *Failover) VerifKeyLocks() int {
+	f.lock.Lock()
+	defer f.lock.Unlock()
+
+	return len(f.keyLocks)
+}
+
+// VerifClose closes the failure cache, if any.
+func (f *Failover) VerifClose() {
+	if f.Errors != nil {
+		f.Errors.VerifClose()
+	}
+}
+
+// VerifKeyLocks returns the number of per-key build locks currently held.
+func (f *FailoverOf[V]) VerifKeyLocks() int {
+	f.lock.Lock()
+	defer f.lock.Unlock()
+
+	return len(f.keyLocks)
+}
+
+// VerifClose closes the failure cache, if any.
+func (f *FailoverOf[V]) VerifClose() {
+	if f.Errors != nil {
+		f.Errors.VerifClose()
+	}
+}
+
+// VerifIndexSize returns, per cache name and label, the number of indexed keys.
+func (i *InvalidationIndex) VerifIndexSize() map[string]map[string][]string {
+	i.mu.Lock()
+	defer i.mu.Unlock()
+
+	res := make(map[string]map[string][]string, len(i.labeledKeysByName))
+
+	for name, lk := range i.labeledKeysByName {
+		m := make(map[string][]string, len(lk))
+		for l, ks := range lk {
+			m[l] = append([]string(nil), ks...)
+		}
+
+		res[name] = m
+	}
+
+	return res
+}
